@@ -998,11 +998,12 @@ class ModelWorld(BaseWorld):
                     'flip': [rng.random() < 0.5 for _ in range(nlinks)],
                     'ep_flip': [rng.random() < 0.5 for _ in range(neps)],
                     'perm': rng.randrange(7), 'all_defenses': rng.random() < 0.3,
-                    'empty_dist': rng.random() < 0.5}
+                    'empty_dist': rng.random() < 0.5, 'stale_entry': rng.random() < 0.15}
         return {'op': 'legacy', 'kind': '0.0.39', 'fmt': kind, 'read_fault': read_fault,
                 'wrapper': rng.random() < 0.6,
                 'shorthand': rng.random() < 0.5, 'all_defenses': rng.random() < 0.4,
-                'scalar_targets': rng.random() < 0.3, 'order': ids}
+                'scalar_targets': rng.random() < 0.3, 'order': ids,
+                'dup_name': [rng.randrange(100), rng.randrange(100)] if rng.random() < 0.25 else None}
 
     def _gen_peer_fault(self, rng):
         if self.cfg.get('peer_faults') and rng.random() < 0.3:
@@ -1955,11 +1956,29 @@ class ModelWorld(BaseWorld):
                 ref.add_assoc(RefAssoc(nh, cls, [l], [r]))
             ref.name = os.path.basename(path)
             self.count('probe:legacy_scad')
+            if op.get('stale_entry'):
+                self.count('probe:legacy_scad_with_superseded_entry')
             if any(op.get('flip', [])):
                 self.count('probe:legacy_scad_flipped_orientation')
         else:
             path = self.fresh_path('.' + ('json' if op['fmt'] == 'json' else 'yml'))
-            legacy.write_0_0_39(ref, self.L, path, op)
+            names = {}
+            if op.get('dup_name') and len(ref.order) >= 2:
+                # the file gives two assets one name: the one listed later is renamed on load
+                # (name + ':' + id), exactly as a second add_asset with that name is
+                forder = legacy.file_order_0_0_39(ref, op)
+                i, j = sorted(x % len(forder) for x in op['dup_name'])
+                if i != j:
+                    by_id = {ref.assets[h].id: ref.assets[h] for h in ref.order}
+                    shared = by_id[forder[i]].name
+                    renamed = f'{shared}:{forder[j]}'
+                    if renamed not in ref.live_names():
+                        names[forder[j]] = shared
+                        by_id[forder[j]].name = renamed
+                        self.count('probe:legacy_file_with_one_name_twice')
+                        if forder[j] < forder[i]:
+                            self.count('probe:legacy_name_twice_and_ids_descending')
+            legacy.write_0_0_39(ref, self.L, path, op, names)
             if op.get('read_fault'):
                 plan = faults.FaultPlan('EIO', 'read', 0, 'r')
                 with faults.patched_open([updater], plan):
